@@ -102,6 +102,17 @@ def chains(case):
     for a, k in refs[:: max(1, len(refs) // 8)]:
         calls.append(["g", "viaq", [a]])
         call_expected.append(k)
+    # ... and macros that name a register-like object THEMSELVES and index it by a parameter
+    for j, (nm, el) in enumerate(reglike):
+        if not el or j % 2 != (case["pick"][0] if case.get("pick") else 0) % 2:
+            continue
+        pn = "o"
+        while pn in {x[0] for x in reglike} | {l[0] for l in prog["lets"]} | {m_[0] for m_ in prog["maps"]}:
+            pn += "_"  # a parameter of that name would shadow the register-like object
+        macros.append({"name": "vix%d" % j, "params": [pn], "body": ["seq", [["g", "X", [["ix", nm, pn]]]]]})
+        for i in range(len(el)):
+            calls.append(["g", "vix%d" % j, [["n", i]]])
+            call_expected.append(el[i])
     prog["macros"] = macros
     prog["body"] = body + nested + calls
     text = render.to_text(prog)
@@ -160,6 +171,23 @@ def chains(case):
         raise Violation("meaning-unresolvable", f"{e}\n--- program:\n{text}")
     if not same_meaning(m0, m1) or not same_meaning(mref, m1):
         raise Violation("fill_in_map-changes-meaning", f"reference {show(mref)}\nbefore {show(m0)}\nafter  {show(m1)}\n--- program:\n{text}")
+    # alias fill-in BEFORE macro expansion may refuse (a body that indexes by a parameter cannot
+    # be resolved yet), but an answer must be right: expanding it afterwards gives the same qubits
+    st_, early = guard(fill_in_map, c, what="fill_in_map (unexpanded)")
+    if st_ == "ok":
+        st_, ee = guard(lambda: fill_in_let(expand_macros(early)), what="expand after early fill_in_map")
+        if st_ == "err":
+            raise Violation("fill_in_map", f"the result of fill_in_map on the unexpanded circuit cannot be expanded: {ee}\n--- program:\n{text}", where="early")
+        tail_e = list(ee.body.statements)[len(refs) + len(nested) :]
+        flat_e = []
+        for s_ in tail_e:
+            flat_e.extend(extract.find_objects(s_, lambda x: isinstance(x, NamedQubit)) if not hasattr(s_, "parameters") else [_qubit_of(s_)])
+        got_e = []
+        for q_ in flat_e:
+            rq = q_.resolve_qubit()
+            got_e.append(rq[1] if rq[0].name == regname else None)
+        if got_e != call_expected:
+            raise Violation("fill_in_map", f"fill_in_map before macro expansion changes the qubits of the macro calls: {got_e}, expected {call_expected}\n--- program:\n{text}", where="early")
     # macro calls analysed WITHOUT expansion (the analysis binds the arguments itself)
     call_objs = list(c.body.statements)[len(refs) + len(nested) :]
     for s_obj, s_model, k in zip(call_objs, calls, call_expected):
